@@ -24,8 +24,11 @@ LenBeforeItem(its, x) == IF x <= 1 THEN 0
    material whose characters do not occur in the plain text") holds iff picking exactly
    those characters out of the target gives back the plain text. *)
 PlainChars(tr) == {tr.plain[y] : y \in DOMAIN tr.plain}
+(* (LET-bound values are computed once per evaluation: the set of plain characters and the position
+   list are each built once per trace and clause, not once per character / annotation) *)
 PlainPos(tr) == IF tr.hasSrc
-                THEN SelectSeq([y \in 1..Len(tr.target) |-> y - 1], LAMBDA p : tr.target[p + 1] \in PlainChars(tr))
+                THEN LET pcs == PlainChars(tr) IN
+                     SelectSeq([y \in 1..Len(tr.target) |-> y - 1], LAMBDA p : tr.target[p + 1] \in pcs)
                 ELSE [y \in 1..Len(tr.target) |-> y - 1]
 NonOverl(tr, kk) == \A q \in 1..(kk - 1) : tr.anns[q][2] <= tr.anns[kk][1]
 Judged(tr, kk)   == tr.anns[kk][1] < tr.anns[kk][2] /\ NonOverl(tr, kk)
@@ -33,7 +36,8 @@ PosOfB(its, kk)  == {x \in DOMAIN its : its[x].k = "B" /\ its[x].id = kk}
 (* The premise is about the INPUT only.  (difflib's SequenceMatcher is a heuristic and can return a
    non-minimal script for plain texts with repeated lines; that makes this clause fail for
    use_dmp=False on such inputs -- recorded as an open known finding, see known_findings.json.) *)
-ForcedAlign(tr)  == tr.hasSrc => [y \in DOMAIN PlainPos(tr) |-> tr.target[PlainPos(tr)[y] + 1]] = tr.plain
+ForcedAlignP(tr, pp) == tr.hasSrc => [y \in DOMAIN pp |-> tr.target[pp[y] + 1]] = tr.plain
+ForcedAlign(tr)  == ForcedAlignP(tr, PlainPos(tr))
 (* the premise of C11: the source is well-formed markup and the plain text is its text content *)
 C11Domain(tr) == tr.hasSrc /\ tr.src_wf /\ tr.src_tc = tr.plain
 HasTag(tr) == \E y \in DOMAIN tr.target : tr.target[y] = 60
@@ -47,10 +51,10 @@ Holds(cl, t) ==
   ELSE CASE cl = "C04.noraise"  -> TRUE
     [] cl = "C09.additive" -> FlatS(its, 1) = tr.target
     [] cl = "C10.enclosure" ->
-         (ForcedAlign(tr) /\ (tr.mode = "unchecked" \/ ~HasTag(tr))) =>
+         LET pp == PlainPos(tr) IN
+         (ForcedAlignP(tr, pp) /\ (tr.mode = "unchecked" \/ ~HasTag(tr))) =>
            \A kk \in DOMAIN tr.anns : Judged(tr, kk) =>
-             LET pp == PlainPos(tr)
-                 a  == pp[tr.anns[kk][1] + 1]
+             LET a  == pp[tr.anns[kk][1] + 1]
                  b  == pp[tr.anns[kk][2]] + 1
              IN /\ Cardinality(PosOfB(its, kk)) = 1
                 /\ LET x == CHOOSE x \in PosOfB(its, kk) : TRUE IN
